@@ -33,6 +33,10 @@ def seg_choice(rng):
 
 
 def cases(tier, seed, phase):
+    for j in range(3000 if tier == 'quick' else 40000):
+        def mk(j=j):
+            return {'kind': 'objseq', 'ops': gen_objseq(rng_for(seed, 'c17o', j))}
+        yield mk
     idx = 0
     full = 3 if tier == 'quick' else 4
     for n in range(0, full + 1):
@@ -104,6 +108,61 @@ def norm_crlf(s):
 _LINE = re.compile(rb'(\d\d\d)([ \t-])(.*)', re.S)
 
 
+OBJ_TEXTS = ['2.1.5 Recipient ok', '5.7.1 Relaying denied', '4.3.0 try later', 'plain text', '2.0.0', '5.1.1  two spaces', '3.0.0 not an esc class', '', 'x']
+
+
+def gen_objseq(rng):
+    ops = []
+    for _ in range(rng.randint(2, 6)):
+        c = rng.random()
+        if c < 0.45:
+            ops.append(['c', rng.choice(['250', '550', '451', '354', '220', '421', '235'])])
+        elif c < 0.9:
+            ops.append(['m', rng.choice(OBJ_TEXTS)])
+        else:
+            ops.append(['x'])
+    if not any(o[0] == 'c' for o in ops):
+        ops.insert(0, ['c', '250'])
+    return ops
+
+
+def run_objseq(case, model):
+    from slimta.smtp.reply import Reply
+    from slimta.smtp.io import IO
+    r = Reply()
+    parts = []
+    for op in case['ops']:
+        if op[0] == 'c':
+            r.code = op[1]
+            parts.append('c:' + cps(op[1]))
+        elif op[0] == 'm':
+            r.message = op[1]
+            parts.append('m:' + cps(op[1]))
+        else:
+            r.enhanced_status_code = False
+            parts.append('x')
+    smsg, sesc = r.message, r.enhanced_status_code
+    want = 'msg=%s esc=%s' % (cps(smsg) if smsg is not None else 'None', cps(sesc) if sesc is not None else 'None')
+    m = model.ask('reply objseq %s' % ';'.join(parts))
+    mismatch = None if m == want else {'op': 'reply objseq', 'ops': case['ops'], 'impl': want, 'model': m}
+    hits = []
+    if sesc and r.code and sesc[0] != r.code[0]:
+        hits.append(hit('c17.esc-class', 'enhanced status class differs from the reply code class', observed=sesc, expected=r.code))
+    # what goes on the wire carries the same class, and reads back as the same reply
+    # (a reply whose enhanced status code was switched off is sent without one; the reader cannot know and shows the
+    #  default x.0.0 — the documented presentation of Reply.message, not a change of the text on the wire)
+    if r.code and smsg is not None and r._esc is not False:
+        sio = IO(ScriptSocket([]))
+        r.send(sio)
+        w = sio.send_buffer.getvalue()
+        back = Reply()
+        back.recv(IO(ScriptSocket([w])))
+        if (back.code, back.message) != (r.code, norm_crlf(smsg) if smsg else smsg) and not smsg[:1].isspace():
+            hits.append(hit('c17.object-not-round-tripped', 'a reply built in several steps does not read back as it was sent',
+                            observed=[back.code, back.message], expected=[r.code, smsg]))
+    return CaseResult(mismatch, hits, ('objseq', repr(case['ops'])), ['objseq'])
+
+
 def spec_parse(stream):
     """Line-level specification of one reply at the head of `stream`."""
     code = None
@@ -161,6 +220,8 @@ def canon_recv(res, io, sock):
 
 
 def run_case(case, model):
+    if case['kind'] == 'objseq':
+        return run_objseq(case, model)
     from slimta.smtp.io import IO
     from slimta.smtp.reply import Reply
     hits = []
